@@ -1130,6 +1130,7 @@ PROP_THEOREMS = {
     "C06": ["C06_undo_leaves_less_than_a_byte"],
     "C07": ["C07_read_bits_resume_partial"],
     "C08": ["C08_window_and_truthful_status", "C08_bad_geometry_untouched"],
-    "C13": ["C13_full_flush_is_stream_error", "C13_errors_are_sticky", "C13_nonfinish_after_finish"],
+    "C13": ["C13_full_flush_is_stream_error", "C13_errors_are_sticky", "C13_nonfinish_after_finish",
+            "C13_counts_within_offered_buffers", "C13_wf_of_constructors"],
     "C19": ["C19_boundary_record_roundtrip", "C19_no_record_elsewhere"],
 }
